@@ -469,6 +469,8 @@ MALFORMED = [
     'DTSTART:19970902T090000\nRRULE:FREQ=DAILY;COUNT=2\nRDATE;VALUE=FOO:19970903T090000',
     'DTSTART:19970902T090000\nRRULE:FREQ=DAILY;COUNT=2\nEXRULE;X=Y:FREQ=DAILY;COUNT=1',
     'DTSTART;TZID=America/New_York:19970902T090000Z\nRRULE:FREQ=DAILY;COUNT=2',
+    'RRULE:COUNT=3',                      # FREQ is the one required part
+    'COUNT=3;BYDAY=MO',
     'RRULE:FREQ=DAILY;BYSETPOS=0',
     'RRULE:FREQ=DAILY;BYSETPOS=400',
     'DTSTART:19970902T090000Z\nRRULE:FREQ=DAILY;UNTIL=19971224T000000',
